@@ -34,6 +34,9 @@ type Loop struct {
 	header *ssa.BasicBlock
 	blocks map[*ssa.BasicBlock]bool
 	fn     *ssa.Function
+	// inherited: a loop of a contract-less helper called directly by the function under
+	// verification; it is numbered among that function's loops and takes its `loop K` clauses
+	inherited bool
 }
 
 type Unit struct {
@@ -63,6 +66,7 @@ type Unit struct {
 	noMerge   bool
 	entryVariant []T // values of the `decreases` clauses at entry (self-recursion variant)
 	deadBlocks   []string
+	entryEpoch   int // heap epoch of the function's entry state
 	aliasCache   map[*ssa.Function]map[string]string // rename tolerance: old name -> new name per function
 	pruned       []prunedBranch // branches the solver found infeasible
 	deadAfterCall []string      // ... whose condition depends on the result of a call replaced by a contract and whose target no path reaches
@@ -897,7 +901,13 @@ func (u *Unit) execSimple(st *State, in ssa.Instruction) {
 		c := u.newCell(st, x.Comment, et)
 		st.cells[c] = u.zero(et)
 		if x.Comment != "" {
-			fr.named[x.Comment] = c
+			if fr.resultNames[x.Comment] && !snapshotHasLocal(u.eng.dirRel(), relName(fr.fn), x.Comment) {
+				// a NEW source local whose name coincides with the synthetic name of an anonymous
+				// result (err, result): contract clauses written for the unchanged tree mean the result
+				u.note("contract identifier " + x.Comment + " of " + relName(fr.fn) + " keeps denoting the function's result (a new local of that name was introduced)")
+			} else {
+				fr.named[x.Comment] = c
+			}
 			for oldN, newN := range u.aliasesOf(fr.fn) {
 				if newN == x.Comment {
 					if _, taken := fr.named[oldN]; !taken {
@@ -908,8 +918,12 @@ func (u *Unit) execSimple(st *State, in ssa.Instruction) {
 			}
 		}
 		if names, ok := fr.resultAllocs[x]; ok {
+			if fr.resultNames == nil {
+				fr.resultNames = map[string]bool{}
+			}
 			for _, n := range names {
 				fr.named[n] = c
+				fr.resultNames[n] = true
 			}
 		}
 		fr.regs[x] = &Ptr{kind: pCell, cell: c, rtyp: et, typ: et}
